@@ -4,7 +4,6 @@ package main
 import (
 	"bufio"
 	"bytes"
-	"crypto/sha256"
 	"fmt"
 	"os"
 	"os/exec"
@@ -28,13 +27,13 @@ func cmdCorr(repo string, seed uint64, n int) int {
 	rng := hx.NewRng(seed + 1)
 	w := bufio.NewWriterSize(os.Stdout, 1<<20)
 	defer w.Flush()
-	shared := c.copies()
+	shared := c.sharedWorld()
 	for id := 0; id < n; id++ {
 		mode := modeAny
 		if id%3 == 0 {
 			mode = modeSafe
 		}
-		nops := rng.Range(2, 9)
+		nops := rng.Range(2, 10)
 		var prog []op
 		if id%5 == 4 {
 			mut, in := pickUnsafe(rng, c)
@@ -49,12 +48,12 @@ func cmdCorr(repo string, seed uint64, n int) int {
 			r := execOp(o, objs, shared)
 			target := o.d
 			switch o.code {
-			case 'C', 'c', 'X', 'B', 'N':
+			case 'C', 'c', 'X', 'B', 'N', 'Y', 'F':
 				target = o.o
 			}
 			alias := "none"
 			if r.class == "ok" {
-				al := aliasOf(objs[target], shared)
+				al := aliasOf(objs[target], shared.bytes)
 				switch len(al) {
 				case 0:
 					alias = "own"
@@ -64,18 +63,9 @@ func cmdCorr(repo string, seed uint64, n int) int {
 					alias = "multi" + hx.Csv(al)
 				}
 			}
-			var changed []int
-			for k := range shared {
-				// byte comparison with the pristine copy (exact, and cheaper than re-hashing after every op;
-				// the concurrent rounds use SHA-256)
-				if !bytes.Equal(shared[k], c.pristine[k]) {
-					changed = append(changed, k)
-				}
-			}
-			// restore right away so that the next op's change set is its own
-			for _, k := range changed {
-				copy(shared[k], c.pristine[k])
-			}
+			// exact comparison of every shared input (byte slices and shared DecryptInfos) with its pristine state;
+			// changed ones are restored right away so that the next op's change set is its own
+			changed := shared.changed(false)
 			obs = append(obs, fmt.Sprintf("%s/%s/%s", r.class, alias, hx.Csv(changed)))
 		}
 		fmt.Fprintf(w, "S\t%d\t%d\t%s\t%s\n", id, tid, progString(prog), strings.Join(obs, ";"))
@@ -86,21 +76,24 @@ func cmdCorr(repo string, seed uint64, n int) int {
 // pickUnsafe chooses an in-place op and a shared input on which it is effective.
 func pickUnsafe(rng *hx.Rng, c *corpus) (byte, int) {
 	for {
-		mut := []byte{'X', 'C', 'c', 'B'}[rng.Intn(4)]
-		k := rng.Intn(11)
+		mut := []byte{'X', 'C', 'c', 'B', 'Y', 'F'}[rng.Intn(6)]
+		var k int
 		switch mut {
 		case 'X':
-			if c.isEnc(k) {
-				return mut, k
-			}
+			k = c.pick(rng, func(i int, in inputInfo) bool { return in.role == "full" && in.enc })
 		case 'C', 'c':
-			if c.isClear(k) {
-				return mut, k
-			}
+			k = c.pick(rng, func(i int, in inputInfo) bool { return in.role == "full" && !in.enc && in.codec != "" })
 		case 'B':
-			if c.info[k].codec == "avc" || c.info[k].codec == "hevc" {
-				return mut, k
-			}
+			k = c.pick(rng, func(i int, in inputInfo) bool {
+				return (in.role == "full" || in.role == "media") && (in.codec == "avc" || in.codec == "hevc")
+			})
+		case 'Y':
+			k = c.pick(rng, func(i int, in inputInfo) bool { return in.role == "media" && in.enc })
+		case 'F':
+			k = c.pick(rng, func(i int, in inputInfo) bool { return in.role == "media" && !in.enc })
+		}
+		if k >= 0 {
+			return mut, k
 		}
 	}
 }
@@ -181,25 +174,20 @@ func genRound(seed uint64, k, n int, c *corpus) *round {
 		r.mode = "known"
 		g = rng.Range(2, 6)
 	}
+	var mut0 byte
+	var in0 int
 	for t := 0; t < g; t++ {
-		nops := rng.Range(2, 8)
+		nops := rng.Range(2, 9)
 		r.skew = append(r.skew, rng.Intn(200))
 		if r.mode == "known" && t < 2 {
 			// goroutine 0 always applies the in-place op; goroutine 1 on the same input in 2 rounds of 3
 			// (otherwise it decodes that input through a Reader, or does something unrelated)
 			if t == 0 || (k-n)%3 != 2 {
-				var mut byte
-				var in int
 				if t == 0 {
-					mut, in = pickUnsafe(rng, c)
-				} else {
-					mut, in = r.progs[0][1].code, 0
-					fmt.Sscanf(r.progs[0][0].src[1:], "%d", &in)
-					if mut == 'G' {
-						mut = 'B'
-					}
+					mut0, in0 = pickUnsafe(rng, c)
 				}
-				p, u, m := genProgram(rng, c, modeUnsafe, in, mut, rng.Range(3, 5))
+				mut, in := mut0, in0
+				p, u, m := genProgram(rng, c, modeUnsafe, in, mut, rng.Range(4, 6))
 				for _, x := range m {
 					r.targets[x] = true
 				}
@@ -221,7 +209,7 @@ type roundOutcome struct {
 }
 
 // runRound: sequential references on private copies, then the concurrent run on the shared inputs.
-func runRound(r *round, c *corpus, shared [][]byte) roundOutcome {
+func runRound(r *round, c *corpus, shared *world) roundOutcome {
 	g := len(r.progs)
 	type ref struct {
 		res   []opResult
@@ -229,12 +217,7 @@ func runRound(r *round, c *corpus, shared [][]byte) roundOutcome {
 	}
 	refs := make([]ref, g)
 	for t := 0; t < g; t++ {
-		priv := make([][]byte, len(c.pristine))
-		for k := range inputsRead(r.progs[t]) {
-			if k < len(priv) {
-				priv[k] = hx.Exact(c.pristine[k])
-			}
-		}
+		priv := c.privateWorld(inputsRead(r.progs[t]))
 		res, fin, _ := runProgram(r.progs[t], priv, nil)
 		refs[t] = ref{res, fin}
 	}
@@ -274,12 +257,7 @@ func runRound(r *round, c *corpus, shared [][]byte) roundOutcome {
 			out.diffs = append(out.diffs, fmt.Sprintf("%d:final:", t))
 		}
 	}
-	for k := range shared {
-		if sha256.Sum256(shared[k]) != c.hash[k] {
-			out.changed = append(out.changed, k)
-			copy(shared[k], c.pristine[k])
-		}
-	}
+	out.changed = shared.changed(true) // SHA-256 of every shared input (digest for shared DecryptInfos); restores
 	return out
 }
 
@@ -290,9 +268,12 @@ func cmdWorker(repo string, seed uint64, from, n, known, stride int) int {
 		stride = 1
 	}
 	c := buildCorpus(repo, seed)
-	shared := c.copies()
-	for k, in := range shared {
+	shared := c.sharedWorld()
+	for k, in := range shared.bytes {
 		fmt.Printf("INPUTADDR\t%d\t%d\t%d\n", k, reflect.ValueOf(in).Pointer(), len(in))
+	}
+	for k, in := range c.info {
+		fmt.Printf("INPUTNAME\t%d\t%s\n", k, in.name)
 	}
 	for k := from; k < n+known; k += stride {
 		r := genRound(seed, k, n, c)
@@ -307,7 +288,7 @@ func cmdWorker(repo string, seed uint64, from, n, known, stride int) int {
 		// inputs that some goroutine of this round decodes through a SliceReader and then modifies in place
 		targets := r.targets
 		var tl []int
-		for in := range c.pristine {
+		for in := range c.info {
 			if targets[in] {
 				tl = append(tl, in)
 			}
@@ -392,6 +373,7 @@ func cmdSearch(repo string, seed uint64, n, known int, norace bool, workers int)
 		stderr  string
 	}
 	rounds := map[int]*rinfo{}
+	names := map[string]string{}
 	var order []int
 	var mu sync.Mutex
 	var wg sync.WaitGroup
@@ -425,6 +407,8 @@ func cmdSearch(repo string, seed uint64, n, known int, norace bool, workers int)
 			for _, l := range strings.Split(so.String(), "\n") {
 				f := strings.Split(l, "\t")
 				switch f[0] {
+				case "INPUTNAME":
+					names[f[1]] = f[2]
 				case "INPUTADDR":
 					lo, _ := strconv.ParseUint(f[2], 10, 64)
 					ln, _ := strconv.ParseUint(f[3], 10, 64)
@@ -482,6 +466,13 @@ func cmdSearch(repo string, seed uint64, n, known int, norace bool, workers int)
 		}
 		return true
 	}
+	named := func(csv string) string {
+		var out []string
+		for _, k := range strings.Split(csv, ",") {
+			out = append(out, k+" ["+names[k]+"]")
+		}
+		return strings.Join(out, ", ")
+	}
 	evals, nraces, nKnownRounds, nKnownHit := 0, 0, 0, 0
 	firstUnsafe := func(ri *rinfo) string {
 		for _, u := range ri.unsafe {
@@ -528,9 +519,9 @@ func cmdSearch(repo string, seed uint64, n, known int, norace bool, workers int)
 		if ri.changed != "-" && ri.changed != "" {
 			if known && subsetCsv(ri.changed, ri.targets) {
 				hit = true
-				fmt.Printf("FAIL\t%s\tinput-mutated\t%s\tSHA-256 of shared input(s) %s changed\n", mutatorSite(firstUnsafe(ri)), ri.witness, ri.changed)
+				fmt.Printf("FAIL\t%s\tinput-mutated\t%s\tSHA-256 of shared input(s) %s changed\n", mutatorSite(firstUnsafe(ri)), ri.witness, named(ri.changed))
 			} else {
-				fmt.Printf("FAIL\t%s\tinput-mutated\t%s\tSHA-256 of shared input(s) %s changed although no goroutine applied an in-place operation to SliceReader-decoded shared data\n", site, ri.witness, ri.changed)
+				fmt.Printf("FAIL\t%s\tinput-mutated\t%s\tSHA-256 of shared input(s) %s changed although no goroutine applied an in-place operation to an object decoded from them through a SliceReader\n", site, ri.witness, named(ri.changed))
 			}
 		}
 		for _, d := range ri.diffs {
@@ -582,7 +573,7 @@ func cmdReplay(repo, w string, norace bool) int {
 			return 2
 		}
 		c := buildCorpus(repo, seed)
-		shared := c.copies()
+		shared := c.sharedWorld()
 		for i := 0; i < 25; i++ {
 			out := runRound(r, c, shared)
 			fmt.Printf("run %d: diffs=%v changed-inputs=%v\n", i, out.diffs, out.changed)
